@@ -141,7 +141,8 @@ let run_cli (line_parts : string list) : string =
     let cfg = { ccf_armTimers = !arm; ccf_disableAcks = false } in
     let st = ref (cli_init !first) in
     let seen = ref 0 in
-    let groups = ref ["hs:4:000200000000000300000064000400100000:8:983041"] in
+    let groups = ref ["hs:" ^ hex_of_bytes cli_preface ^ ":"
+                      ^ (match cli_handshake_frames with Ok b -> hex_of_bytes b | Err _ -> "err" | Panic _ -> "panic")] in
     let hung = ref false in
     let close_called = ref false and timer_gate = ref false and wl_held = ref false in
     let step e = st := cli_step cfg !st e in
